@@ -13,13 +13,13 @@ Local Open Scope N_scope.
 (* a reply implies a frame addressed to a configured unit id - whatever the frame carries (valid,
    failing in the handler, malformed, unsupported function, empty) *)
 Theorem C17_silent : forall (St : Type) (H : handler St) l units fr, frame_ok l fr ->
-  reply_of (handle_frame H l NoAuth units fr) <> Ok [] -> exists u, f_dest fr = DUnit u /\ lookup u units <> None.
+  reply_of (handle_frame H l NoAuth units fr) <> Ok [] -> exists u, f_dest fr = DUnit u /\ lookup u (u_map units) <> None.
 Proof. exact @silent. Qed.
 Print Assumptions C17_silent.
 
 (* over a whole connection, against the unit ids the server was configured with *)
 Theorem C17_silent_session : forall (St : Type) (H : handler St) l units frames, Forall (frame_ok l) frames ->
-  Forall2 (fun fr reply => reply <> [] -> exists u, f_dest fr = DUnit u /\ In u (map fst units))
+  Forall2 (fun fr reply => reply <> [] -> exists u, f_dest fr = DUnit u /\ In u (map fst (u_map units)))
           frames (fst (fst (fst (session H l NoAuth units frames)))).
 Proof. exact @silent_session. Qed.
 Print Assumptions C17_silent_session.
@@ -30,16 +30,33 @@ Theorem C17_broadcast_never_answered : forall (St : Type) (H : handler St) l a u
 Proof. exact @broadcast_never_answered. Qed.
 Print Assumptions C17_broadcast_never_answered.
 
-(* a valid broadcast write: every configured unit's handler receives exactly one call with the
-   decoded arguments, in unit id order, each unit's state is the handler's new state - whether or
-   not the handler returned an exception - and nothing is answered *)
+(* a valid broadcast write: one call with the decoded arguments per configured UNIT ID, in unit id
+   order, each on the handler object that unit id maps to; the states are those of applying the
+   write unit id by unit id (broadcast_store) - whether or not a handler returned an exception -
+   and nothing is answered *)
 Theorem C17_broadcast_write : forall (St : Type) (H : handler St) l units fr fc r, frame_ok l fr ->
   f_dest fr = DBroadcast -> decode (f_pdu fr) = Valid fc r -> is_write r = true ->
   let x := handle_frame H l NoAuth units fr in
-  reply_of x = Ok [] /\ log_of x = flat_map (fun us => write_call (fst us) r) units /\
-  units_of x = map (fun us => (fst us, fst (apply_write H (snd us) r))) units.
+  reply_of x = Ok [] /\ log_of x = flat_map (fun uh => write_call (snd uh) r) (u_map units) /\
+  units_of x = with_store units (broadcast_store H r (u_map units) (u_store units)).
 Proof. exact @broadcast_write. Qed.
 Print Assumptions C17_broadcast_write.
+
+(* "applied exactly once to every configured unit": when no two unit ids share a handler object,
+   every configured object gets the write exactly once and nothing else changes *)
+Theorem C17_broadcast_once : forall (St : Type) (H : handler St) r m g h, NoDup (map snd m) ->
+  broadcast_store H r m g h = if in_dec N.eq_dec h (map snd m) then fst (apply_write H (g h) r) else g h.
+Proof. exact @broadcast_store_distinct. Qed.
+Print Assumptions C17_broadcast_once.
+
+(* ... and what the code does when two unit ids DO share one object (ServerHandlerMap allows it;
+   `handlers.values_mut()` visits map entries): the object is written twice, the second time on the
+   state the first write left. Stated, not judged: "once to every configured unit" is met per unit
+   id, not per object. *)
+Theorem C17_broadcast_shared_twice : forall (St : Type) (H : handler St) r u1 u2 h g,
+  broadcast_store H r [(u1, h); (u2, h)] g h = fst (apply_write H (fst (apply_write H (g h) r)) r).
+Proof. exact @broadcast_store_shared. Qed.
+Print Assumptions C17_broadcast_shared_twice.
 
 (* a broadcast read, or a malformed / unsupported / empty broadcast: no call, no change, no answer *)
 Theorem C17_broadcast_other : forall (St : Type) (H : handler St) l units fr, frame_ok l fr ->
@@ -48,12 +65,34 @@ Theorem C17_broadcast_other : forall (St : Type) (H : handler St) l units fr, fr
 Proof. exact @broadcast_other. Qed.
 Print Assumptions C17_broadcast_other.
 
+(* a request addressed to a unit id acts on exactly the handler object that unit id maps to; every
+   other object is untouched. So a write through unit 1 is visible through unit 2 iff both map to
+   the same object. *)
+Theorem C17_unit_effect : forall (St : Type) (H : handler St) l units fr fc r u h, frame_ok l fr ->
+  f_dest fr = DUnit u -> lookup u (u_map units) = Some h -> decode (f_pdu fr) = Valid fc r ->
+  let x := handle_frame H l NoAuth units fr in
+  u_map (units_of x) = u_map units /\
+  u_store (units_of x) h = fst (fst (ref_exec H fc h (u_store units h) r)) /\
+  (forall k, k <> h -> u_store (units_of x) k = u_store units k).
+Proof. exact @unit_effect. Qed.
+Print Assumptions C17_unit_effect.
+
 (* non-vacuity: units 1 and 5 (unit 5 refuses register 0 with exception 4). Broadcast write single
    register reaches both, once, in order, no answer; broadcast read ignored; malformed request to
    the unconfigured unit 2 is not answered; unit 5 then reports the refusal only for its own request *)
 Example C17_nonvacuous :
-  run_model (LRtu, [mku 1 3 5 [] [] [] [] [] []; mku 5 3 5 [] [(1, 0, 4)] [] [] [] []], CNone,
+  run_model (LRtu, [(1, 1); (5, 5)], [mku 1 3 5 [] [] [] [] [] []; mku 5 3 5 [] [(1, 0, 4)] [] [] [] []], CNone,
              [mkf None DBroadcast [6; 0; 0; 18; 52]; mkf None DBroadcast [3; 0; 0; 0; 1]; mkf None (DUnit 2) [1; 0; 0; 0; 0];
               mkf None (DUnit 5) [6; 0; 0; 18; 52]; mkf None (DUnit 1) [3; 0; 0; 0; 1]])
   = "-,-,-,0586040262,0103021234B533|wsr.1.0.4660;wsr.5.0.4660;wsr.5.0.4660;rh.1.0-0|open"%string.
+Proof. vm_compute. reflexivity. Qed.
+
+(* non-vacuity, shared object: unit ids 1 and 2 hold the same handler object (index 1), unit 3 its
+   own. A write through unit 1 is read back through unit 2 (0x1234) but not through unit 3; a
+   broadcast write calls the shared object twice and unit 3's once. *)
+Example C17_shared_nonvacuous :
+  run_model (LRtu, [(1, 1); (2, 1); (3, 3)], [mku 1 3 5 [] [] [] [] [] []; mku 3 3 5 [] [] [] [] [] []], CNone,
+             [mkf None (DUnit 1) [6; 0; 0; 18; 52]; mkf None (DUnit 2) [3; 0; 0; 0; 1]; mkf None (DUnit 3) [3; 0; 0; 0; 1];
+              mkf None DBroadcast [6; 0; 9; 0; 1]])
+  = "01060000123484BD,0203021234F133,03030207A7820E,-|wsr.1.0.4660;rh.1.0-0;rh.3.0-0;wsr.1.9.1;wsr.1.9.1;wsr.3.9.1|open"%string.
 Proof. vm_compute. reflexivity. Qed.
